@@ -1003,4 +1003,99 @@ func runC02B(c *core.Ctx, n int) {
 			return d, n, err
 		})
 	})
+
+	// RouterInfo.AddAddress - the one method that edits a structure after it was built: the value
+	// serialises to the same fields with exactly that address appended (count byte included), for
+	// constructed and for parsed values; and a copy of the struct taken BEFORE the call still
+	// serialises to what it was (count and addresses belong together in every copy)
+	c.Job("B/rinfo-add-address", n/3, func(i int, r *core.Rand) {
+		m, sh := gen.RouterInfo(r)
+		m.Published &= 1<<62 - 1
+		m.PeerSize, m.PeerHashes = 0, nil
+		if len(m.Addrs) > 6 {
+			m.Addrs = m.Addrs[:6]
+		}
+		for j := range m.Addrs {
+			m.Addrs[j].Expiration = [8]byte{}
+			m.Addrs[j].Options = sortedMapping(m.Addrs[j].Options)
+			if len(m.Addrs[j].Style) == 0 {
+				m.Addrs[j].Style = []byte("NTCP2")
+			}
+		}
+		m.Options = sortedMapping(m.Options)
+		extra := gen.RouterAddress(r)
+		extra.Expiration = [8]byte{}
+		extra.Options = sortedMapping(extra.Options)
+		if len(extra.Style) == 0 {
+			extra.Style = []byte("SSU2")
+		}
+		ra, err := lib.BuildRouterAddress(extra)
+		if err != nil || ra == nil {
+			return
+		}
+		var ri *router_info.RouterInfo
+		origin := "parsed"
+		if i%2 == 0 {
+			p, _, err := router_info.ReadRouterInfo(m.Encode())
+			if err != nil {
+				return
+			}
+			ri = &p
+		} else {
+			origin = "constructed"
+			if sh["sig"].(int) != 7 {
+				return
+			}
+			k, _ := rm.NewSigKey(7, r)
+			priv, _ := lib.LibSigningPrivateKey(k)
+			v, ok, err := lib.BuildRouterInfo(m, priv, i%4/2)
+			if !ok || err != nil || v == nil {
+				return
+			}
+			ri = v
+		}
+		sh["origin"] = origin
+		c.Eval(1)
+		before, err := ri.Bytes()
+		if err != nil {
+			return
+		}
+		before = append([]byte{}, before...)
+		copyBefore := *ri
+		var aerr error
+		if p, _, _ := c.Call("router_info.RouterInfo.AddAddress", before, func() { aerr = ri.AddAddress(ra) }); p || aerr != nil {
+			return
+		}
+		c.Nontrivial([]byte("add-address"), before)
+		after, err := ri.Bytes()
+		if err != nil {
+			c.Violate("router_info.RouterInfo.AddAddress", "constructed-bytes-not-decodable", sh, before, fmt.Sprintf("after AddAddress the value does not serialise: %v", err))
+			return
+		}
+		d0, _, _, err0 := rm.DecodeRouterInfo(before)
+		d1, n1, wf, err1 := rm.DecodeRouterInfo(after)
+		if err0 != nil {
+			return
+		}
+		if err1 != nil || !wf || n1 != len(after) {
+			c.Violate("router_info.RouterInfo.AddAddress", "constructed-bytes-not-decodable", sh, after, fmt.Sprintf("independent decoder on the bytes after AddAddress: %v (ends at %d of %d)", err1, n1, len(after)))
+			return
+		}
+		wantAddrs := append(append([]rm.RouterAddress{}, d0.Addrs...), extra)
+		if len(d1.Addrs) != len(wantAddrs) {
+			c.Violate("router_info.RouterInfo.AddAddress", "constructed-field-differs", sh, after, fmt.Sprintf("%d addresses before, %d after adding one", len(d0.Addrs), len(d1.Addrs)))
+			return
+		}
+		d0x, d1x := d0, d1
+		d0x.Addrs, d1x.Addrs = nil, nil
+		if !reflect.DeepEqual(normalize(d1.Addrs), normalize(wantAddrs)) || !reflect.DeepEqual(normalize(d0x), normalize(d1x)) {
+			c.Violate("router_info.RouterInfo.AddAddress", "constructed-field-differs", sh, after, "after AddAddress the serialisation is not the previous fields with the address appended")
+			return
+		}
+		if cb, err := copyBefore.Bytes(); err != nil || !bytes.Equal(cb, before) {
+			c.Violate("router_info.RouterInfo.AddAddress", "copy-taken-before-the-call-changed", sh, before, fmt.Sprintf("a struct copy taken before AddAddress on the original now serialises differently (%v): %s", err, describeDiff(before, cb)))
+			return
+		}
+		c.Bucket("add-address-ok/" + origin)
+	})
 }
